@@ -1431,8 +1431,11 @@ THEOREMS = [
     'C12.burgers_closure', 'C12.disp_continuous_off_cut',
     # energy-coefficient tensor
     'C12.K_symm', 'C12.kOf_conj', 'C12.K_real_partial',
+    # covariance under rotating the whole problem, independence of the eigen-solver's normalisation
+    'C12.eigen_covariant', 'C12.inverse_covariant', 'C12.fields_covariant', 'C12.K_covariant', 'C12.scale_invariant',
     # isotropic closed form (generated definitions)
-    'C12.iso_stress_is_hooke',
+    'C12.iso_stress_is_hooke', 'C12.iso_symmetric', 'C12.iso_falls_as_inv_r', 'C12.iso_burgers_jump',
+    'C12.iso_jump_general', 'C12.iso_K_symm', 'C12.iso_K_posdef',
 ]
 PARTIAL = {}
 RULE = ''
